@@ -42,6 +42,9 @@ class Builder:
         r = {"kind": self.rng.choice(kinds), "shape": [n, m], "seed": _seed(self.rng)}
         if center:
             r["center"] = True
+        elif self.rng.random() < 0.08:
+            # the caller's dtype: single precision, or integers for integer-valued data
+            r["cast"] = "int64" if r["kind"] == "lattice" else "float32"
         return r
 
     def y_of(self, Xrec, p=1, squeeze=True, noise=0.1):
